@@ -235,4 +235,342 @@ theorem putPortsTrace_prefix (cfg : Cfg) (lc : LoopCheck) (clearFirst : Bool) (s
   simp only [putPortsTrace, List.getElem?_cons_succ] at h
   exact bodyTrace_prefix cfg lc (resetPorts clearFirst (switchesOff st)) docs k s h
 
+/-! ## PUT /devices: the same small-step rendering of `put_slave_devices`
+
+`Model.Backup.putSlavesDoc` is big-step as well (the switches are the constants `true` in its result). The call is
+unfolded into: `disable`; `for slave in get_all(): remove(slave)`; the validation loop (one — unchanged — state per
+entry it got to, the first entry that fails the schema raises an error carrying its index and ends the `try:` block:
+nothing is added); the additions (one state per added entry, later duplicates of a name refused: first wins); then the
+`finally:` on the LAST of these states, whatever the outcome. -/
+
+/-- `for slave in slaves_devices.get_all(): await slaves_devices.remove(slave)` -/
+def removeSlaves (st : BState) : BState := { st with slaves := fun _ => none }
+
+/-- one addition: rewrites the slave registry only; a name that is registered already is refused (first wins) -/
+def addSlaveStep (st : BState) (x : String × Slave) : BState :=
+  { st with slaves := fun n =>
+      match st.slaves n with
+      | some s => some s
+      | none => if x.1 = n then some x.2 else none }
+
+/-- the validation loop, counting from index `i`: one (unchanged) state per entry it got to; `some j` = entry `j`
+failed the schema and raised -/
+def validateTrace (st : BState) : List (Option (String × Slave)) → Nat → List BState × Option Nat
+  | [], _ => ([], none)
+  | none :: _, i => ([st], some i)
+  | some _ :: r, i => (st :: (validateTrace st r (i + 1)).1, (validateTrace st r (i + 1)).2)
+
+/-- the additions: one state per added entry -/
+def addTrace (st : BState) : List (String × Slave) → List BState
+  | [] => []
+  | x :: r => addSlaveStep st x :: addTrace (addSlaveStep st x) r
+
+/-- the `try:` block after the removal: validation of every entry, then — only if none raised — the additions -/
+def slavesBodyTrace (st : BState) (docs : List (Option (String × Slave))) : List BState × SlavesResp :=
+  match (validateTrace st docs 0).2 with
+  | some i => ((validateTrace st docs 0).1, .err i)
+  | none => ((validateTrace st docs 0).1 ++ addTrace st (docs.filterMap id), .ok)
+
+structure SlavesTrace where
+  before : BState
+  during : List BState
+  after : BState
+  resp : SlavesResp
+
+def putSlavesTrace (st : BState) (docs : List (Option (String × Slave))) : SlavesTrace :=
+  { before := st,
+    during := switchesOff st :: removeSlaves (switchesOff st) ::
+      (slavesBodyTrace (removeSlaves (switchesOff st)) docs).1,
+    after := switchesOn (lastOf (removeSlaves (switchesOff st))
+      (slavesBodyTrace (removeSlaves (switchesOff st)) docs).1),
+    resp := (slavesBodyTrace (removeSlaves (switchesOff st)) docs).2 }
+
+/-- everything but the slave registry -/
+def SFrame (s t : BState) : Prop :=
+  s.updating = t.updating ∧ s.events = t.events ∧ s.device = t.device ∧ s.ports = t.ports
+
+theorem SFrame.refl (s : BState) : SFrame s s := ⟨rfl, rfl, rfl, rfl⟩
+
+theorem SFrame.trans {a b c : BState} (h1 : SFrame a b) (h2 : SFrame b c) : SFrame a c :=
+  ⟨h1.1.trans h2.1, h1.2.1.trans h2.2.1, h1.2.2.1.trans h2.2.2.1, h1.2.2.2.trans h2.2.2.2⟩
+
+/-- the validation loop is `firstInvalid`, and it changes nothing: every state it records is the state it started in -/
+theorem validateTrace_spec (st : BState) (docs : List (Option (String × Slave))) (i : Nat) :
+    (validateTrace st docs i).2 = firstInvalid docs i ∧ (∀ s ∈ (validateTrace st docs i).1, s = st) := by
+  induction docs generalizing i with
+  | nil => exact ⟨rfl, fun s hs => by cases hs⟩
+  | cons d r ih =>
+    cases d with
+    | none =>
+      refine ⟨rfl, fun s hs => ?_⟩
+      simpa [validateTrace] using hs
+    | some x =>
+      refine ⟨(ih (i + 1)).1, fun s hs => ?_⟩
+      simp only [validateTrace, List.mem_cons] at hs
+      rcases hs with rfl | hm
+      · rfl
+      · exact (ih (i + 1)).2 s hm
+
+/-- how many entries the validation loop got to: all of them when none fails, `j - i + 1` when entry `j` raises -/
+theorem validateTrace_length (st : BState) (docs : List (Option (String × Slave))) (i : Nat) :
+    ((validateTrace st docs i).2 = none → (validateTrace st docs i).1.length = docs.length) ∧
+    (∀ j, (validateTrace st docs i).2 = some j → i ≤ j ∧ (validateTrace st docs i).1.length = j - i + 1) := by
+  induction docs generalizing i with
+  | nil => exact ⟨fun _ => rfl, fun j h => by cases h⟩
+  | cons d r ih =>
+    cases d with
+    | none =>
+      refine ⟨fun h => (by cases h), fun j h => ?_⟩
+      simp only [validateTrace, Option.some.injEq] at h
+      subst h
+      simp [validateTrace]
+    | some x =>
+      obtain ⟨i1, i2⟩ := ih (i + 1)
+      refine ⟨fun h => ?_, fun j h => ?_⟩
+      · simp only [validateTrace] at h ⊢
+        simp only [List.length_cons, i1 h]
+      · simp only [validateTrace] at h ⊢
+        obtain ⟨h1, h2⟩ := i2 j h
+        refine ⟨by omega, ?_⟩
+        simp only [List.length_cons, h2]
+        omega
+
+theorem lastOf_append (s : BState) (a b : List BState) : lastOf s (a ++ b) = lastOf (lastOf s a) b := by
+  induction a generalizing s with
+  | nil => rfl
+  | cons x r ih => exact ih x
+
+theorem lastOf_const (s : BState) (l : List BState) (h : ∀ x ∈ l, x = s) : lastOf s l = s := by
+  rcases lastOf_mem s l with h1 | h1
+  · exact h1
+  · exact h _ h1
+
+theorem addSlaveStep_frame (st : BState) (x : String × Slave) : SFrame (addSlaveStep st x) st := ⟨rfl, rfl, rfl, rfl⟩
+
+/-- an addition never touches the switches (nor the device, nor the ports) -/
+theorem addTrace_frame (st : BState) (l : List (String × Slave)) : ∀ s ∈ addTrace st l, SFrame s st := by
+  induction l generalizing st with
+  | nil => intro s hs; cases hs
+  | cons x r ih =>
+    intro s hs
+    simp only [addTrace, List.mem_cons] at hs
+    rcases hs with rfl | hm
+    · exact addSlaveStep_frame st x
+    · exact (ih _ s hm).trans (addSlaveStep_frame st x)
+
+theorem addTrace_length (st : BState) (l : List (String × Slave)) : (addTrace st l).length = l.length := by
+  induction l generalizing st with
+  | nil => rfl
+  | cons x r ih => simp only [addTrace, List.length_cons, ih]
+
+/-- registry `r` after the entries of `l` have been added in order (first wins) -/
+def addAll (r : String → Option Slave) (l : List (String × Slave)) : String → Option Slave :=
+  fun n => match r n with
+    | some s => some s
+    | none => (l.find? (fun a => a.1 = n)).map (·.2)
+
+theorem addAll_empty (l : List (String × Slave)) (st : BState) :
+    addAll (fun _ => none) l = (putSlaves st l).slaves := rfl
+
+/-- the registry after the additions: what was registered stays, the first entry of each new name is added -/
+theorem addTrace_last (st : BState) (l : List (String × Slave)) :
+    (lastOf st (addTrace st l)).slaves = addAll st.slaves l := by
+  induction l generalizing st with
+  | nil =>
+    funext n
+    simp only [addTrace, lastOf, addAll, List.find?_nil, Option.map_none]
+    cases st.slaves n <;> rfl
+  | cons x r ih =>
+    simp only [addTrace, lastOf]
+    rw [ih]
+    funext n
+    simp only [addAll, addSlaveStep]
+    cases st.slaves n with
+    | some s => rfl
+    | none =>
+      by_cases h : x.1 = n
+      · simp [h]
+      · simp [h]
+
+/-- the registry after the first `k + 1` additions -/
+theorem addTrace_prefix (st : BState) (l : List (String × Slave)) (k : Nat) (s : BState)
+    (h : (addTrace st l)[k]? = some s) : s.slaves = addAll st.slaves (l.take (k + 1)) := by
+  induction l generalizing st k with
+  | nil => simp [addTrace] at h
+  | cons x r ih =>
+    simp only [addTrace] at h
+    cases k with
+    | zero =>
+      simp only [List.getElem?_cons_zero, Option.some.injEq] at h
+      subst h
+      have := addTrace_last st [x]
+      simpa [addTrace, lastOf] using this
+    | succ k =>
+      simp only [List.getElem?_cons_succ] at h
+      rw [ih _ k h]
+      funext n
+      simp only [addAll, addSlaveStep, List.take_succ_cons]
+      cases st.slaves n with
+      | some s => rfl
+      | none =>
+        by_cases hx : x.1 = n
+        · simp [hx]
+        · simp [hx]
+
+theorem slavesBodyTrace_frame (st : BState) (docs : List (Option (String × Slave))) :
+    ∀ s ∈ (slavesBodyTrace st docs).1, SFrame s st := by
+  intro s hs
+  have hv := (validateTrace_spec st docs 0).2
+  unfold slavesBodyTrace at hs
+  cases hr : (validateTrace st docs 0).2 with
+  | some i =>
+    rw [hr] at hs
+    rw [hv s hs]; exact SFrame.refl st
+  | none =>
+    rw [hr] at hs
+    rcases List.mem_append.mp hs with h | h
+    · rw [hv s h]; exact SFrame.refl st
+    · exact addTrace_frame st _ s h
+
+/-- the `try:` block of the trace is the body of the executable model: same response; the registry it ends with is
+untouched by a validation failure and holds the listed devices otherwise -/
+theorem slavesBodyTrace_spec (st : BState) (docs : List (Option (String × Slave))) :
+    (∀ i, firstInvalid docs 0 = some i →
+      (slavesBodyTrace st docs).2 = .err i ∧ lastOf st (slavesBodyTrace st docs).1 = st) ∧
+    (firstInvalid docs 0 = none →
+      (slavesBodyTrace st docs).2 = .ok ∧
+      (lastOf st (slavesBodyTrace st docs).1).slaves = addAll st.slaves (docs.filterMap id)) := by
+  obtain ⟨hv1, hv2⟩ := validateTrace_spec st docs 0
+  refine ⟨fun i hf => ?_, fun hf => ?_⟩
+  · rw [← hv1] at hf
+    unfold slavesBodyTrace
+    rw [hf]
+    exact ⟨rfl, lastOf_const st _ hv2⟩
+  · rw [← hv1] at hf
+    unfold slavesBodyTrace
+    rw [hf]
+    refine ⟨rfl, ?_⟩
+    simp only
+    rw [lastOf_append, lastOf_const st _ hv2, addTrace_last]
+
+theorem lastOf_sframe (st : BState) (docs : List (Option (String × Slave))) :
+    SFrame (lastOf st (slavesBodyTrace st docs).1) st := by
+  rcases lastOf_mem st (slavesBodyTrace st docs).1 with h | h
+  · rw [h]; exact SFrame.refl st
+  · exact slavesBodyTrace_frame st docs _ h
+
+/-- **the trace ends where the executable model ends** (final state and response), on the success and on the error
+path alike -/
+theorem putSlavesTrace_agrees (st : BState) (docs : List (Option (String × Slave))) :
+    ((putSlavesTrace st docs).after, (putSlavesTrace st docs).resp) = putSlavesDoc st docs := by
+  have hs := slavesBodyTrace_spec (removeSlaves (switchesOff st)) docs
+  have hf := lastOf_sframe (removeSlaves (switchesOff st)) docs
+  cases hfi : firstInvalid docs 0 with
+  | some i =>
+    obtain ⟨h1, h2⟩ := hs.1 i hfi
+    refine Prod.ext ?_ ?_
+    · apply BState.ext'
+      · exact hf.2.2.2
+      · exact hf.2.2.1
+      · simp only [putSlavesTrace, switchesOn, putSlavesDoc, hfi]
+        rw [h2]; rfl
+      · simp only [putSlavesTrace, switchesOn, putSlavesDoc]
+      · simp only [putSlavesTrace, switchesOn, putSlavesDoc]
+    · simp only [putSlavesTrace, putSlavesDoc, hfi]
+      exact h1
+  | none =>
+    obtain ⟨h1, h2⟩ := hs.2 hfi
+    refine Prod.ext ?_ ?_
+    · apply BState.ext'
+      · exact hf.2.2.2
+      · exact hf.2.2.1
+      · simp only [putSlavesTrace, switchesOn, putSlavesDoc, hfi]
+        rw [h2]; rfl
+      · simp only [putSlavesTrace, switchesOn, putSlavesDoc]
+      · simp only [putSlavesTrace, switchesOn, putSlavesDoc]
+    · simp only [putSlavesTrace, putSlavesDoc, hfi]
+      exact h1
+
+/-- between `disable` and `finally` both switches are off in every state, whatever the body does -/
+theorem putSlavesTrace_during_off (st : BState) (docs : List (Option (String × Slave))) :
+    ∀ s ∈ (putSlavesTrace st docs).during, s.updating = false ∧ s.events = false := by
+  intro s hs
+  simp only [putSlavesTrace, List.mem_cons] at hs
+  rcases hs with rfl | rfl | hm
+  · exact ⟨rfl, rfl⟩
+  · exact ⟨rfl, rfl⟩
+  · have hf := slavesBodyTrace_frame _ docs s hm
+    exact ⟨hf.1, hf.2.1⟩
+
+theorem filterMap_id_length (docs : List (Option (String × Slave))) (i : Nat) (h : firstInvalid docs i = none) :
+    (docs.filterMap id).length = docs.length := by
+  induction docs generalizing i with
+  | nil => rfl
+  | cons d r ih =>
+    cases d with
+    | none => simp [firstInvalid] at h
+    | some x =>
+      simp only [firstInvalid] at h
+      simp [ih _ h]
+
+/-- how far the body got: every entry validated and every entry added when the document is accepted; exactly the
+entries up to the first invalid one validated, and NOTHING added, when it is rejected -/
+theorem putSlavesTrace_length (st : BState) (docs : List (Option (String × Slave))) :
+    ((putSlavesTrace st docs).resp = .ok → (putSlavesTrace st docs).during.length = 2 + docs.length + docs.length) ∧
+    (∀ i, (putSlavesTrace st docs).resp = .err i → (putSlavesTrace st docs).during.length = 2 + (i + 1)) := by
+  have hl := validateTrace_length (removeSlaves (switchesOff st)) docs 0
+  have hv := (validateTrace_spec (removeSlaves (switchesOff st)) docs 0).1
+  simp only [putSlavesTrace, slavesBodyTrace]
+  cases hr : (validateTrace (removeSlaves (switchesOff st)) docs 0).2 with
+  | some j =>
+    refine ⟨fun h => (by cases h), fun i h => ?_⟩
+    simp only [SlavesResp.err.injEq] at h
+    subst h
+    simp only [List.length_cons, (hl.2 j hr).2]
+    omega
+  | none =>
+    refine ⟨fun _ => ?_, fun i h => by cases h⟩
+    have hfm := filterMap_id_length docs 0 (hv ▸ hr)
+    simp only [List.length_cons, List.length_append, hl.1 hr, addTrace_length, hfm]
+    omega
+
+/-- accepted document: the state recorded after the `k + 1`-th addition carries the registry the executable model
+`putSlaves` leaves on the first `k + 1` entries -/
+theorem putSlavesTrace_prefix (st : BState) (docs : List (Option (String × Slave))) (k : Nat) (s : BState)
+    (hok : (putSlavesTrace st docs).resp = .ok)
+    (h : (putSlavesTrace st docs).during[2 + docs.length + k]? = some s) :
+    s.slaves = (putSlaves st ((docs.filterMap id).take (k + 1))).slaves := by
+  have hl := validateTrace_length (removeSlaves (switchesOff st)) docs 0
+  simp only [putSlavesTrace, slavesBodyTrace] at hok h
+  cases hr : (validateTrace (removeSlaves (switchesOff st)) docs 0).2 with
+  | some j => rw [hr] at hok; cases hok
+  | none =>
+    rw [hr] at h
+    simp only at h
+    rw [show 2 + docs.length + k = (docs.length + k) + 1 + 1 by omega, List.getElem?_cons_succ,
+      List.getElem?_cons_succ, List.getElem?_append_right (by rw [hl.1 hr]; omega), hl.1 hr,
+      Nat.add_sub_cancel_left] at h
+    exact addTrace_prefix _ _ k s h
+
+/-- rejected document (entry `i` fails the schema): the whole trace between `disable` and `finally` — the state
+after `disable`, then the emptied registry after the removal and after each of the `i + 1` entries the validation loop
+got to; nothing is ever added -/
+theorem putSlavesTrace_failure (st : BState) (docs : List (Option (String × Slave))) (i : Nat)
+    (herr : (putSlavesTrace st docs).resp = .err i) :
+    (putSlavesTrace st docs).during =
+      switchesOff st :: List.replicate (i + 2) (removeSlaves (switchesOff st)) := by
+  have hl := validateTrace_length (removeSlaves (switchesOff st)) docs 0
+  have hv := (validateTrace_spec (removeSlaves (switchesOff st)) docs 0).2
+  simp only [putSlavesTrace, slavesBodyTrace] at herr ⊢
+  cases hr : (validateTrace (removeSlaves (switchesOff st)) docs 0).2 with
+  | none => rw [hr] at herr; cases herr
+  | some j =>
+    rw [hr] at herr
+    simp only [SlavesResp.err.injEq] at herr
+    subst herr
+    simp only [List.replicate_succ, List.cons.injEq, true_and]
+    rw [← List.replicate_succ]
+    refine List.eq_replicate_iff.mpr ⟨?_, hv⟩
+    rw [(hl.2 j hr).2]; omega
+
 end QtVerif.Backup
